@@ -67,24 +67,41 @@ class SObj:
         self.__dict__["_fields"] = dict(fields or {})
         self.__dict__["_lazy"] = lazy  # may create unknown fields on demand (input object)
         self.__dict__["_ftypes"] = dict(field_types or {})  # overrides from the contract
+        self.__dict__["_written"] = set()  # fields assigned by the code under verification
 
     @property
     def _cls(self):
         return self._cls_set[0] if len(self._cls_set) == 1 else None
 
     def __getattr__(self, attr):
-        if attr.startswith("_"):
+        if attr.startswith("__"):
             raise AttributeError(attr)
         return SObj.CUR.get_attr(self, attr)
 
     def __setattr__(self, attr, value):
-        if attr.startswith("_"):
+        if attr in ("_cls_set", "_nm", "_fields", "_lazy", "_ftypes", "_written"):
             self.__dict__[attr] = value
         else:
             self._fields[attr] = value
+            self._written.add(attr)
 
     def __repr__(self):
         return f"<{'|'.join(self._cls_set)} {self._nm}>"
+
+
+class OldView:
+    """Pre-state view of an input object: fields as they were when the function was entered."""
+
+    def __init__(self, obj, snap):
+        self.__dict__["_obj"] = obj
+        self.__dict__["_snap"] = snap
+
+    def __getattr__(self, attr):
+        if attr in self._snap:
+            return self._snap[attr]
+        if attr not in self._obj._written:
+            return getattr(self._obj, attr)  # never assigned: still the entry value
+        raise AttributeError(f"old value of {attr} was not captured (mention it in a requires clause)")
 
 
 class AList:
